@@ -600,6 +600,42 @@ def _agg(g, scale):
                 g.emit("wf %s" % y)
                 g.emit("size %s" % y)
         g.count("agg:sparse3")
+    # very long lists (more members than a 16-bit counter holds)
+    g.emit("# group agg fixed-long-lists")
+    for n in ([1, 1000, 65536, 65537, 70000] if True else []):
+        k1 = g.r.choice([3, 30000, 40001])
+        for fn, w in [("parheapor", 1), ("parand", 3), ("paror", 2), ("fastor", 0), ("fastand", 0), ("heapor", 0)]:
+            if n > 1000 and fn in ("heapor",) and g.r.random() < 0.5:
+                continue
+            g.emit("aggmany %s %d %d %d %d" % (fn, w, n, k1, k1 + 1))
+        g.count("agg:long-list")
+    # inputs whose containers are flagged shared (cloned under copy-on-write; zero-copy views), keys present in one input only:
+    # the result is then mutated chunk by chunk and the inputs are looked at again (and the other way round)
+    g.emit("# group agg fixed-flagged-inputs")
+    g.emit("of qa 5 70000 %d %d" % (30000 << 16, (65535 << 16) + 9))
+    g.emit("cowclone qa2 qa")
+    g.emit("of qb0 6 %d %d" % ((2 << 16) + 1, (40000 << 16) + 3))
+    g.emit("rd qb frombuffer qb0")
+    g.emit("of qc %d" % ((50000 << 16) + 1))
+    for fn in PAR + SEQ:
+        for w in ([1, 2, 3] if fn in PAR else [None]):
+            y = g.fresh("qy")
+            g.emit(("%s %s %s qa qb qc" % (fn, y, "" if w is None else str(w))).replace("  ", " "))
+            g.emit("aggindep %s qa res qb qc qa2" % y)
+            y = g.fresh("qy")
+            g.emit(("%s %s %s qb qa qc" % (fn, y, "" if w is None else str(w))).replace("  ", " "))
+            g.emit("aggindep %s qb res qa qc qa2" % y)
+    # lists whose other members are all empty (fresh, or filled and emptied): the result is a bitmap of its own
+    g.emit("# group agg fixed-empties-indep")
+    g.emit("new fe2")
+    g.emit("of fe3 7 8")
+    g.emit("iandnot fe3 fe3")
+    for fn in ("heapor", "heapxor", "fastor", "parheapor 2", "paror 2"):
+        for names in (["fa", "fe"], ["fe", "fa"], ["fe", "fe2", "fa"], ["fe3", "fa", "fe"], ["fa", "fe3"]):
+            y = g.fresh("hy")
+            g.emit("%s %s" % (fn.replace(" ", " %s " % y) if " " in fn else "%s %s" % (fn, y), " ".join(names)))
+            g.emit("aggindep %s fa res" % y)
+            g.emit("aggindep %s fa in" % y)
     g.emit("clone fx fa")
     g.emit("andany fx fb")
     g.emit("andany fx fx")
